@@ -5,6 +5,7 @@ Nothing in here imports pyimpspec.  The formulas are written from the papers the
  * time constants: Schoenleber et al. (2014) eq. 12 / Boukamp (1995) eq. 18 with the extension factor of
    Yrjana & Bobacka (2024):  tau_min = 1/(F_ext*w_max), tau_max = F_ext/w_min,
    tau_k = tau_min * (tau_max/tau_min)**((k-1)/(M-1)),  k = 1..M
+   (taken literally also when the limits cross, i.e. log10(f_max/f_min) + 2 log_F_ext < 0: the tau_k then descend)
  * impedance model (Boukamp Fig. 1):   Z = R + sum_k R_k/(1 + j w tau_k) [+ 1/(j w C)] [+ j w L]
  * admittance model (Boukamp Fig. 13): Y = 1/R + sum_k j w C_k/(1 + j w tau_k) [+ j w C] [+ 1/(j w L)]
 
@@ -171,7 +172,7 @@ def gate_stats(f, tau, var, test, admittance, add_c, add_l, X=None):
     B @ var (C09: noisy / foreign spectra; var is then the harness's own least-squares solution, harness_solution()).
 
     ratio    #unknowns / #equations of the main system
-    perdec   RC elements per decade of the (extended) time-constant range
+    perdec   RC elements per decade of the (extended or contracted, possibly descending) time-constant range
     dyn      max|X| / min|X|
     cond     largest 2-norm condition number of the linear systems in the form the variant's documentation describes
              (unweighted for the lstsq variants, rows divided by |X_i| (Boukamp weighting) for the others)
@@ -195,7 +196,7 @@ def gate_stats(f, tau, var, test, admittance, add_c, add_l, X=None):
     X = np.asarray(X, dtype=complex)
     aX = np.abs(X)
     unk, eq = counts(len(f), len(tau), kind, add_c, add_l)
-    st = {"ratio": unk / eq, "perdec": float((len(tau) - 1) / max(1e-9, np.log10(tau[-1] / tau[0]))),
+    st = {"ratio": unk / eq, "perdec": float((len(tau) - 1) / max(1e-9, abs(np.log10(tau[-1] / tau[0])))),
           "dyn": float(aX.max() / aX.min()) if aX.min() > 0 else np.inf, "cond": 1.0, "condn": 1.0, "kappa": 0.0, "kpar": 0.0}
     if not np.isfinite(st["dyn"]):
         st.update(cond=np.inf, condn=np.inf, kappa=np.inf, kpar=np.inf, kappan=np.inf, kparn=np.inf)
